@@ -38,6 +38,8 @@ SKELETONS = [
     dict(name="terminal-list-incompatible-entry", text="N{[<|0 2 1 1|][<]CC[>], [<]CO[>][>]}|gauss(50,5)|O", closed=False),
     dict(name="descriptor-after-branch", text="{[][<]CC(C)([>])C(=O)OC; [<]O, [>]N[]}|gauss(150,5)|", closed=True),
     dict(name="isotope-labelled-unit", text="N{[<][<]C([2H])([2H])C([2H])(C)[>][>]}|gauss(60,5)|[2H]", closed=True),
+    dict(name="list-can-close-before-suffix", text="OC{[>][<]CC[>|5 0 1|]; [<][H][<]}|gauss(50,5)|CCF", closed=False),
+    dict(name="id-zero-and-idless", text="{[][$0]NCCO[$]; [$0]F, [$]Cl[]}|gauss(100,10)|", closed=True),
     dict(name="open-right-end", text="N{[<][<]CC[>][>]}|gauss(50,5)|", closed=False),
     dict(name="zero-weight-unit", text="N{[<][<]CC[>], [<|0|]CO[>|0|][>]}|gauss(50,5)|O", closed=True),
 ]
@@ -461,7 +463,7 @@ class Oracle:
             P.check("C04", got == exp, "both used descriptors are removed, every other open descriptor survives with shifted atom index")
             # the used descriptors were unused before: they sit on atoms that have a free valence position recorded
         # ---------------- C07: per block
-        self._check_blocks(obs, skeleton)
+        self._check_blocks(obs, skeleton, exc)
         if exc is not None and type(exc).__name__ in ("AtomValenceException", "AtomKekulizeException", "KekulizeException", "MolSanitizeException", "AtomSanitizeException"):
             P.check("C05", False, "generated molecule passes sanitisation")
         if exc is not None or result is None:
@@ -545,6 +547,15 @@ class Oracle:
                         okh = False
             P.check("C05", okh, "atoms carry the hydrogen count of the written token")
         # ---------------- C06
+        if not skeleton.get("closed") and len(res.bond_descriptors) == 0:
+            # an ill-posed skeleton may raise, but a molecule that is handed back as complete must contain every written element
+            elem_of = [self.tok_elem.get(id(tok), (None, None)) for tok, _, _ in residues]
+            okall = True
+            for ei, el in enumerate(self.elements):
+                cnt = sum(1 for e, k in elem_of if e == ei and k in ("K", "R"))
+                if cnt < 1 or (not isinstance(el, self.Stochastic) and cnt != 1):
+                    okall = False
+            P.check("C06", okall, "a molecule returned without open descriptor contains every written element")
         if skeleton.get("closed"):
             P.check("C06", len(res.bond_descriptors) == 0 and res.fully_generated, "molecule is fully generated (no open descriptor)")
             ndesc = sum(len(tok.bond_descriptors) for tok, _, _ in residues)
@@ -621,8 +632,10 @@ class Oracle:
                         okterm = False
             P.check("C06", okterm, "hand-over bonds use descriptors matching the terminal descriptors")
 
-    def _check_blocks(self, obs, skeleton):
-        """C07 from the event stream: per Stochastic.generate call."""
+    def _check_blocks(self, obs, skeleton, exc=None):
+        """C07 from the event stream: per Stochastic.generate call.  A block that was cut short by an exception
+        (no molecule is returned) is only asked for what it did before: 'at least one unit' and the stop test of its
+        last unit are not asserted for it."""
         P = self.P
         ev = obs.events
         i = 0
@@ -658,7 +671,9 @@ class Oracle:
                         break
                     k += 1
                 n = len(units)
-                P.check("C07", n >= 1, "at least one unit is added")
+                aborted = exc is not None and k >= len(ev)
+                if not aborted:
+                    P.check("C07", n >= 1, "at least one unit is added")
                 if self.nmax is not None:
                     P.check("C07", n <= self.nmax, "unwinding bound: block stays within N units for target < N * (smallest unit mass)")
                 run = 0.0
@@ -676,6 +691,8 @@ class Oracle:
                         continue
                     if u < n - 1:
                         P.check("C07", added <= target, "growth continues while the added mass does not exceed the target")
+                    elif aborted:
+                        pass
                     else:
                         P.check("C07", added > target, "growth stops right after the first unit that exceeds the target")
                 i = k
